@@ -1493,7 +1493,12 @@ def self_state_key(node):
 def method_state_effects(fn):
     """(unconditional wholesale assignments, conditional assignments, in-place mutations, reads) of self-attached state"""
     uncond, cond, mut, reads = {}, {}, {}, {}
-    top = set(id(s) for s in fn.body)
+    # top-level statements reached on every call: those before the first statement that can leave the function early
+    top = set()
+    for s in fn.body:
+        top.add(id(s))
+        if any(isinstance(x, (ast.Return, ast.Raise)) for x in ast.walk(s)) and not isinstance(s, (ast.Return, ast.Raise)):
+            break
     for n in ast.walk(fn):
         if isinstance(n, (ast.Assign, ast.AugAssign, ast.AnnAssign)):
             tgts = n.targets if isinstance(n, ast.Assign) else [n.target]
@@ -1569,6 +1574,9 @@ def uncond_self_calls(stmts):
         elif isinstance(s, ast.With):
             out |= uncond_self_calls(s.body)
         if isinstance(s, (ast.Return, ast.Raise, ast.Continue, ast.Break)):
+            break
+        # after a statement that may leave the block early (if ..: return) nothing is executed on every path
+        if isinstance(s, (ast.If, ast.Try, ast.For, ast.While)) and any(isinstance(x, (ast.Return, ast.Raise, ast.Continue, ast.Break)) for x in ast.walk(s)):
             break
     return out
 
